@@ -297,7 +297,7 @@ Lemma add_tail S off w : okscalar (dat S) -> okscalar (dat off) ->
       | Some _ =>
           let '(ok, nv, w) := sinplace ec_negate nv w in
           if negb ok then (SErr, w) else
-          if sbuf_eqb s nv then (SOk (Some szero_buf), w) else
+          if sbuf_eqb s nv then (SOk (Some (mk_sbuf SLocal zero32)), w) else
           let '(ok, s, w) := sinplace (fun k => ec_tweak_add k (sdat off)) s w in
           if negb ok then (SErr, w) else (SOk s, w)
       end
@@ -351,7 +351,7 @@ Proof.
               let nv := scopy scalarOffset in
               let '(ok, nv, w) := sinplace ec_negate nv w in
               if negb ok then (SErr, w) else
-              if sbuf_eqb (scopy S) nv then (SOk (Some szero_buf), w) else
+              if sbuf_eqb (scopy S) nv then (SOk (Some (mk_sbuf SLocal zero32)), w) else
               let '(ok, s, w) := sinplace (fun k => ec_tweak_add k (sdat scalarOffset)) (scopy S) w in
               if negb ok then (SErr, w) else (SOk s, w)
           end
@@ -426,7 +426,7 @@ Proof.
               let nv := scopy scalarOffset in
               let '(ok, nv, w) := sinplace ec_negate nv w in
               if negb ok then (SErr, w) else
-              if sbuf_eqb (scopy S) nv then (SOk (Some szero_buf), w) else
+              if sbuf_eqb (scopy S) nv then (SOk (Some (mk_sbuf SLocal zero32)), w) else
               let '(ok, s, w) := sinplace (fun k => ec_tweak_add k (sdat scalarOffset)) (scopy S) w in
               if negb ok then (SErr, w) else (SOk s, w)
           end
